@@ -87,6 +87,8 @@ def take(ctx, r, sub):
     if hangs:
         ctx.inconclusive("%s: %d scenario(s) did not finish within the deadline (a hang is never a verdict); first: %s / %s"
                          % (sub, len(hangs), hangs[0].get("msg"), json.dumps(hangs[0].get("case", {}).get("sc"))))
+    if r.summary.get("aborted"):
+        ctx.inconclusive("%s: %d scenario(s) not played after too many hangs" % (sub, r.summary["aborted"]))
     for e in r.of_kind("error"):
         ctx.inconclusive("%s: harness error: %s" % (sub, e.get("msg")))
     s = r.summary
@@ -140,7 +142,7 @@ def run(ctx):
                              % (name, "/".join(expect), d.violated))
             return
         ctx.log("pinned-code configuration %s = TRUE violates %s after %d states, as documented" % (name, d.violated, d.generated))
-        ctx.cover("deviation_" + name, states=d.distinct, transitions=d.generated)
+        ctx.cover("deviation_" + name, states_until_violation=d.distinct, violated=d.violated)
 
     # 3. scenarios -> cases -> real proxies
     tcp, ws, nsc = build_cases(ctx, sink)
